@@ -113,6 +113,12 @@ func (w *c08World) build(t *c08Term) types.Type {
 			fs[i] = types.NewField(token.NoPos, w.pkg, fmt.Sprintf("F%d", i), w.build(&t.Fields[i]), false)
 		}
 		return types.NewStruct(fs, nil)
+	case "alias":
+		w.n++
+		obj := types.NewTypeName(token.NoPos, w.pkg, fmt.Sprintf("A%d_%d", w.idx, w.n), nil)
+		a := types.NewAlias(obj, w.build(t.U))
+		w.pkg.Scope().Insert(obj)
+		return a
 	case "named":
 		w.n++
 		obj := types.NewTypeName(token.NoPos, w.pkg, fmt.Sprintf("T%d_%d", w.idx, w.n), nil)
@@ -135,11 +141,14 @@ func c08HasFunc(t *c08Term) bool {
 			return true
 		}
 	}
-	// a pointer/slice/chan/map is one or three words whatever it refers to
+	// a pointer/slice/chan is one or three words whatever it refers to; a map's slot and bucket sizes depend on key and elem
+	if t.K == "map" {
+		return c08HasFunc(t.Key) || c08HasFunc(t.E)
+	}
 	if t.K == "array" {
 		return c08HasFunc(t.E)
 	}
-	if t.K == "named" {
+	if t.K == "named" || t.K == "alias" {
 		return c08HasFunc(t.U)
 	}
 	return false
